@@ -3,6 +3,7 @@ union of what the contracts read; attributes a setup does not provide lower to t
 from pyvc import val as V
 from ariadne_codegen.client_generators import result_types as RT
 
-RTG_FIELDS = ["_imports", "plugin_manager", "schema", "fragments_definitions", "_unpacked_fragments", "_fragments_used_as_mixins"]
+RTG_FIELDS = ["_imports", "plugin_manager", "schema", "fragments_definitions", "_unpacked_fragments", "_fragments_used_as_mixins",
+              "_public_names", "_used_enums", "_used_scalars", "custom_scalars", "operation_definition"]
 if RT.ResultTypesGenerator not in V.REG.by_cls:
     V.REG.register(RT.ResultTypesGenerator, RTG_FIELDS)
